@@ -18,6 +18,8 @@ type fctx struct {
 	fg      *fileGen
 	vt      *vtrack
 	exclude string // owner name whose types must not be referenced (L9)
+
+	noRepeated bool // generating a oneof option: no array / map (L16)
 }
 
 // ftype is a generated field type.
@@ -75,6 +77,9 @@ func (c *fctx) fieldType(depth int, item bool) ftype {
 	}
 	if item {
 		w[tArray], w[tMap], w[tImplicitRef] = 0, 0, 0
+	}
+	if c.noRepeated {
+		w[tArray], w[tMap] = 0, 0
 	}
 	for {
 		t := c.g.weighted(w[:])
@@ -352,7 +357,7 @@ func (c *fctx) typeOf(t int, depth int, item bool) (ftype, bool) {
 
 	case tInlineObject:
 		ft := ftype{typ: "object", hasExt: true, canOptional: true}
-		ft.block = append(ft.block, c.properties("field", g.r.between(1, 3), depth+1, newFieldNames(), true)...)
+		ft.block = append(ft.block, c.properties("field", g.r.between(1, 2), depth+1, newFieldNames(), true)...)
 		g.feat("inline_object")
 		if depth >= 1 {
 			g.feat("inline_object_deep")
@@ -371,7 +376,7 @@ func (c *fctx) typeOf(t int, depth int, item bool) (ftype, bool) {
 
 	case tInlineEnum:
 		ft := ftype{typ: "enum", hasExt: true, hasV: true, anchorsV: true, canOptional: true}
-		ft.block = c.g.enumOptions(r.between(2, 4), nil)
+		ft.block = c.g.enumOptions(r.between(2, 3), nil)
 		g.feat("inline_enum")
 		return ft, true
 
@@ -554,11 +559,13 @@ func (c *fctx) properties(kw string, n int, depth int, names *fieldNames, marker
 	var out []string
 	for i := 0; i < n; i++ {
 		name := c.g.fieldName(names)
+		// L16: repeated / map members of a oneof are not valid proto.
+		// (The flag must be set before generating: a discarded candidate
+		// would already have been accounted for in vtrack.)
+		saved := c.noRepeated
+		c.noRepeated = kw == "option"
 		ft := c.fieldType(depth, false)
-		for kw == "option" && (strings.HasPrefix(ft.typ, "array:") || strings.HasPrefix(ft.typ, "map:")) {
-			// L16: repeated / map members of a oneof are not valid proto
-			ft = c.fieldType(depth, false)
-		}
+		c.noRepeated = saved
 		out = append(out, c.renderProperty(kw, name, ft, markers)...)
 	}
 	return out
